@@ -53,6 +53,14 @@ def run(rep, tier):
     # differential validation of the SPEC grammar (not of pregex) against the ipaddress module
     sv = native("run_module", {"module": "pvc.bex_misc", "func": "validate_ip_spec", "args": {"n": 4000 if tier == "thorough" else 600}})
     rep.extra["spec_validation_vs_ipaddress"] = sv
+    # differential validation of the regex semantics all language decisions (C15-C19) rest on: random patterns vs CPython
+    from .. import raxioms
+    n, per = (800, 80) if tier == "thorough" else (120, 40)
+    v = raxioms.validate(rep, n, per)
+    rep.bounded.append({"id": "RV", "function": "pvc/rx2smt.py (the regex semantics the language decisions rest on: R3, R4, R6, R7)",
+                        "contract": "T(P) agrees with CPython re's verdict (a disagreement is a checker error, exit 3)",
+                        "bound": f"{n} random patterns over the constructs the library emits x {per} sampled (context, candidate, context) triples",
+                        "evaluations": v["cases"], "distinct_nontrivial": v["positive"], "rule": "triples on which re matches"})
     rep.trusted += ["R3 quantifiers", "R4 grouping", "R6 zero-width items", "R7 bracket expressions",
                     "rx2smt translator (cross-checked against CPython on sampled texts this run)",
                     "CPython re._parser as reader of the emitted pattern", "SMT solvers' regex theory",
